@@ -37,6 +37,8 @@ struct Outcome {
   SlotView view[MAXSLOT];
   bool heapOk = true;
   bool heapEverUnordered = false;  // the queue vector violated the heap order after some operation of the history
+  bool structural = false;         // a structural rule fired (queue content / priority): reported, state not expanded
+  bool unsafe = false;             // dangling queue entry: the judged run is not executed (it would use freed memory)
   // filled by run():
   uint64_t seqHash = 0;
   string startClass;
@@ -56,6 +58,8 @@ static string pertClass(const vector<Op>& ops) {
 
 // the unperturbed run from the current state of w, judged by RefPoll
 static void unperturbedRun(World* w, Outcome* out, bool log) {
+  if (out->unsafe) return;
+  string structClass = out->structural ? out->startClass : string();
   vector<int> prio, slotOfIdx;
   int idxOfSlot[MAXSLOT];
   for (int k = 0; k < w->m_cfg.n; k++) {
@@ -78,6 +82,7 @@ static void unperturbedRun(World* w, Outcome* out, bool log) {
   }
   for (int k : slotOfIdx) if (w->order(k) < g) out->startClass = "behind-g";
   if (out->heapEverUnordered) out->startClass += "+heapx";
+  if (!structClass.empty()) out->startClass = structClass;
   if (log) {
     out->runLog += "state before the unperturbed run: " + w->canon(g) + "\n";
     for (size_t i = 0; i < slotOfIdx.size(); i++) {
@@ -139,6 +144,7 @@ static void unperturbedRun(World* w, Outcome* out, bool log) {
 
 // a periodically perturbed run from the current state of w, judged by RefPerturbed
 static void perturbedRun(World* w, const PerturbPattern& pat, Outcome* out, bool log) {
+  if (out->unsafe || out->structural) return;
   vector<int> prio0;
   long sum = 0;
   for (int k = 0; k < w->m_cfg.n; k++) {
@@ -166,8 +172,26 @@ static void perturbedRun(World* w, const PerturbPattern& pat, Outcome* out, bool
     if (!ok) { out->ok = false; return; }
     R.transitions++;
     ev.push_back(EV_PERTURB);
+    // structural rules after every perturbation; a wrong queue content ends the run (a dangling entry must not be polled)
+    string q = w->queueProblem();
+    if (!q.empty()) {
+      char sb[200];
+      snprintf(sb, sizeof(sb), "poll queue %s after perturbation %ld of the run", q == "queue-dangling" ? "holds an entry that is no defined message" :
+               q == "queue-not-distinct" ? "holds a message twice" : "lacks a defined message that has a priority", r + 1);
+      out->findings.push_back({q + "-perturbed", static_cast<size_t>(pat.m), sb});
+      if (log) out->runLog += string("  VIOLATES ") + q + "-perturbed: " + sb + "\n";
+      return;
+    }
   }
   out->findings = RefPerturbed(pat, prio0).judge(ev);
+  {
+    int k = w->prioProblem();
+    char sb[160];
+    if (k >= 0) {
+      snprintf(sb, sizeof(sb), "m%d has poll priority %d, requested %d, at the end of the perturbed run", k, w->implPrio(k), w->view(k).prio);
+      out->findings.push_back({"priority-mismatch-perturbed", static_cast<size_t>(k), sb});
+    }
+  }
   if (log) {
     char b[256];
     snprintf(b, sizeof(b), "periodically perturbed run %s: %ld x { %d x getNextPoll ; %s }\n", pat.str().c_str(), reps, pat.q,
@@ -187,10 +211,38 @@ static void perturbedRun(World* w, const PerturbPattern& pat, Outcome* out, bool
   }
 }
 
+// structural rules, judged after the load and after every operation:
+//  queue-dangling / queue-not-distinct / queue-missing: the poll queue holds exactly the defined messages with a priority
+//  priority-mismatch: Message::getPollPriority() is the priority that was requested (r<p> type, setPollPriority argument)
+static void structuralRules(World* w, const string& after, Outcome* out, string* log) {
+  if (out->structural) return;
+  char b[200];
+  string q = w->queueProblem();
+  if (!q.empty()) {
+    snprintf(b, sizeof(b), "poll queue %s after %s", q == "queue-dangling" ? "holds an entry that is no defined message" :
+             q == "queue-not-distinct" ? "holds a message twice" : "lacks a defined message that has a priority", after.c_str());
+    out->findings.push_back({q, 0, b});
+    out->structural = true;
+    if (q == "queue-dangling") out->unsafe = true;
+  } else {
+    int k = w->prioProblem();
+    if (k >= 0) {
+      snprintf(b, sizeof(b), "m%d has poll priority %d, requested %d, after %s", k, w->implPrio(k), w->view(k).prio, after.c_str());
+      out->findings.push_back({"priority-mismatch", static_cast<size_t>(k), b});
+      out->structural = true;
+    }
+  }
+  if (out->structural) {
+    out->startClass = "after-" + after.substr(0, 1);
+    if (log) *log += string("     VIOLATES ") + out->findings.back().rule + ": " + b + "\n";
+  }
+}
+
 // replays cfg+ops on fresh objects in THIS process (call only in a fresh child / replay process)
 static bool replayHistory(World* w, const vector<Op>& ops, Outcome* out, string* log, bool preloaded = false) {
   if (!preloaded && !w->loadInitial()) return false;
-  for (int i = 0; i < w->m_cfg.warm; i++) { w->next(); R.transitions++; }
+  structuralRules(w, "load", out, log);
+  for (int i = 0; i < w->m_cfg.warm && !out->unsafe; i++) { w->next(); R.transitions++; }
   if (!w->heapOk()) out->heapEverUnordered = true;
   if (log && w->m_cfg.warm > 0) {
     char b[80];
@@ -199,8 +251,10 @@ static bool replayHistory(World* w, const vector<Op>& ops, Outcome* out, string*
   }
   for (size_t i = 0; i < ops.size(); i++) {
     if (i + 1 == ops.size()) out->canonBefore = w->canon(w->lastPollOrder());
+    if (out->unsafe) return true;  // a dangling entry was reported: nothing further is executed on this state
     if (!w->apply(ops[i], log)) return false;
     R.transitions++;
+    structuralRules(w, ops[i].str(), out, log);
     if (!w->heapOk()) {
       out->heapEverUnordered = true;
       if (log) *log += "     (poll queue vector is not heap-ordered now)\n";
@@ -224,7 +278,7 @@ static string encodeOutcome(const Outcome& o, uint64_t transitions) {
   s += o.canonBefore + "\n" + o.canon + "\n";
   char b[96];
   for (int k = 0; k < MAXSLOT; k++) { snprintf(b, sizeof(b), "%d,", o.view[k].present ? o.view[k].prio : -1); s += b; }
-  snprintf(b, sizeof(b), "\n%d\n%llu\n%s\n%llu\n", o.heapOk ? 1 : 0, static_cast<unsigned long long>(o.seqHash), o.startClass.c_str(),
+  snprintf(b, sizeof(b), "\n%d%d\n%llu\n%s\n%llu\n", o.heapOk ? 1 : 0, o.structural ? 1 : 0, static_cast<unsigned long long>(o.seqHash), o.startClass.c_str(),
            static_cast<unsigned long long>(transitions));
   s += b;
   for (auto& f : o.findings) { snprintf(b, sizeof(b), "\t%zu\t", f.msg); s += f.rule + b + f.detail + "\n"; }
@@ -246,7 +300,8 @@ static bool decodeOutcome(const string& s, Outcome* o, uint64_t* transitions) {
   int v[MAXSLOT] = {-1, -1, -1, -1};
   sscanf(lines[3].c_str(), "%d,%d,%d,%d", &v[0], &v[1], &v[2], &v[3]);
   for (int k = 0; k < MAXSLOT; k++) { o->view[k].present = v[k] >= 0; o->view[k].prio = v[k] < 0 ? 0 : v[k]; }
-  o->heapOk = lines[4] == "1";
+  o->heapOk = lines[4].size() > 0 && lines[4][0] == '1';
+  o->structural = lines[4].size() > 1 && lines[4][1] == '1';
   o->seqHash = strtoull(lines[5].c_str(), nullptr, 10);
   o->startClass = lines[6];
   *transitions = strtoull(lines[7].c_str(), nullptr, 10);
@@ -397,6 +452,12 @@ struct Node {
   string canon;
 };
 
+static uint64_t totalViolations() {
+  uint64_t n = 0;
+  for (auto& kv : R.violations) n += kv.second.count;
+  return n;
+}
+
 static void report(const Cfg& cfg, const vector<Op>& h, const Outcome& o) {
   for (auto& f : o.findings) {
     string cs = cfg.str() + ";ops=" + opsStr(h);
@@ -433,6 +494,7 @@ static string perturbedSig(const RefPoll::Finding& f, const PerturbPattern& pat,
 static void bfs(const Cfg& cfg, int depth, int workers, int pdepth) {
   std::unordered_map<string, uint64_t> visited;  // canonical state -> hash of the unperturbed selection sequence
   vector<Node> frontier, next;
+  const uint64_t violationsBefore = totalViolations();  // the abstraction self-test only fires when no rule did
   g_now = T0;
   World* pristine = new World(cfg);
   if (!pristine->loadInitial()) { fprintf(stderr, "c17: initial configuration %s could not be loaded\n", cfg.str().c_str()); exit(3); }
@@ -489,6 +551,7 @@ static void bfs(const Cfg& cfg, int depth, int workers, int pdepth) {
       stop = true;
       return;
     }
+    if (o.structural) { R.count("states_with_structural_violation_not_expanded"); stop = true; return; }
     visited[o.canon] = o.seqHash;
     g_states++;
     if (!o.heapOk) R.count("states_with_unordered_heap");
@@ -530,9 +593,22 @@ static void bfs(const Cfg& cfg, int depth, int workers, int pdepth) {
         fprintf(stderr, "c17: canonical state not reproduced on replay of %s (%s): %s vs %s\n", opsStr(h).c_str(), cfg.str().c_str(), o.canonBefore.c_str(), node.canon.c_str());
         exit(3);
       }
+      if (o.structural) {
+        // judged first: a state whose queue content / priorities are wrong is reported and not expanded
+        report(cfg, h, o);
+        R.count("states_with_structural_violation_not_expanded");
+        return;
+      }
       auto it = visited.find(o.canon);
       if (it != visited.end()) {
         if (it->second != o.seqHash) {
+          if (totalViolations() > violationsBefore) {
+            // the monitor already reported violations for this configuration: behaviour that depends on more than the
+            // canonical state is then a consequence of the defect, not a harness problem
+            R.count("revisits_with_different_behaviour_after_violations");
+            report(cfg, h, o);
+            return;
+          }
           fprintf(stderr, "c17: canonical state %s reached by %s (%s) behaves differently from its first visit\n", o.canon.c_str(), opsStr(h).c_str(), cfg.str().c_str());
           exit(3);
         }
